@@ -145,7 +145,8 @@ def run(ctx):
                                                    "writes copy=%s record=%s (expected copy=%s record=%s)" % (ct, has_copy, has_record, want_copy, want_record),
                                            "input": case, "kf": None})
         # ---- legacy references ----
-        for legacy, v in (("dbfs.string", "texte é"), ("dbfs.bytes", b"\x00raw\xff"), ("dbfs.pickle", {"a": (1, 2)})):
+        for legacy, v, minimal in [(l_, v_, m_) for (l_, v_) in (("dbfs.string", "texte é"), ("dbfs.bytes", b"\x00raw\xff"), ("dbfs.pickle", {"a": (1, 2)}))
+                                   for m_ in (False, True)]:
             d = mkd()
             st = make_dbfs_store(d)
             st.store_blob("klegacy", v, None)
@@ -153,9 +154,15 @@ def run(ctx):
             meta = json.load(open(mp))
             current = meta["protocol"]
             meta["protocol"] = legacy
+            if minimal:
+                # the metadata as an old release left it: the reference only, none of the fields added since
+                meta = {"protocol": legacy}
             json.dump(meta, open(mp, "w"))
             res.evaluations += 1
-            res.nontrivial("legacy " + legacy)
+            res.nontrivial("legacy " + legacy + (" minimal" if minimal else ""))
+            if not st.has_blob("klegacy"):
+                res.violations.append({"what": "a blob recorded under the legacy reference %s (metadata: %s) is reported absent" % (legacy, json.dumps(meta)),
+                                       "input": {"legacy_reference": legacy, "metadata": meta}, "kf": None})
             try:
                 got = st.fetch_blob("klegacy")
             except BaseException as e:
